@@ -52,6 +52,7 @@ import time
 import errno
 import struct
 import operator
+import functools
 from functools import reduce
 from binascii import hexlify
 
@@ -266,6 +267,9 @@ class Chipset(object):
         timeout = min((timeout + (1 if timeout > 0 else 0)) * 10, 0xFFFF)
         data = self.send_command(0x04,
                                  struct.pack("<H", timeout) + bytes(data))
+        if data is None:
+            # no proper acknowledge or response frame from the chipset
+            raise IOError(errno.EIO, os.strerror(errno.EIO))
         if data and tuple(data[0:4]) != (0, 0, 0, 0):
             raise CommunicationError(data[0:4])
         return data[5:] if data else None
@@ -321,6 +325,9 @@ class Chipset(object):
 
         data = self.send_command(0x48, data)
 
+        if data is None:
+            # no proper acknowledge or response frame from the chipset
+            raise IOError(errno.EIO, os.strerror(errno.EIO))
         if data and tuple(data[3:7]) != (0, 0, 0, 0):
             raise CommunicationError(data[3:7])
 
@@ -351,6 +358,21 @@ class Chipset(object):
             raise StatusError(data[0])
 
 
+def status_error_is_ioerror(method):
+    # A setup command that the chipset does not accept during target
+    # discovery or activation means that the host-controller
+    # communication is broken. Callers expect an IOError, the driver
+    # internal StatusError must not escape.
+    @functools.wraps(method)
+    def wrapper(self, *args, **kwargs):
+        try:
+            return method(self, *args, **kwargs)
+        except StatusError as error:
+            log.error(error)
+            raise IOError(errno.EIO, os.strerror(errno.EIO))
+    return wrapper
+
+
 class Device(device.Device):
     # Device driver for the Sony NFC Port-100 chipset.
 
@@ -365,9 +387,11 @@ class Device(device.Device):
         self.chipset.close()
         self.chipset = None
 
+    @status_error_is_ioerror
     def mute(self):
         self.chipset.switch_rf("off")
 
+    @status_error_is_ioerror
     def sense_tta(self, target):
         """Sense for a Type A Target is supported for 106, 212 and 424
         kbps. However, there may not be any target that understands the
@@ -456,6 +480,7 @@ class Device(device.Device):
         except CommunicationError as error:
             log.debug(error)
 
+    @status_error_is_ioerror
     def sense_ttb(self, target):
         """Sense for a Type B Target is supported for 106, 212 and 424
         kbps. However, there may not be any target that understands the
@@ -488,6 +513,7 @@ class Device(device.Device):
             log.debug("rcvd SENSB_RES %s", hexlify(sensb_res).decode())
             return nfc.clf.RemoteTarget(target.brty, sensb_res=sensb_res)
 
+    @status_error_is_ioerror
     def sense_ttf(self, target):
         """Sense for a Type F Target is supported for 212 and 424 kbps.
 
@@ -526,6 +552,7 @@ class Device(device.Device):
         message = "{device} does not support sense for active DEP Target"
         raise nfc.clf.UnsupportedTargetError(message.format(device=self))
 
+    @status_error_is_ioerror
     def listen_tta(self, target, timeout):
         """Listen as Type A Target in 106 kbps.
 
@@ -683,6 +710,7 @@ class Device(device.Device):
         message = "{device} does not support listen as Type A Target"
         raise nfc.clf.UnsupportedTargetError(message.format(device=self))
 
+    @status_error_is_ioerror
     def listen_ttf(self, target, timeout):
         """Listen as Type F Target is supported for either 212 or 424 kbps."""
         if target.brty not in ('212F', '424F'):
@@ -744,6 +772,7 @@ class Device(device.Device):
                     transmit_data = bytearray([len(transmit_data)+1]) \
                         + transmit_data
 
+    @status_error_is_ioerror
     def listen_dep(self, target, timeout):
         log.debug("listen_dep for {0:.3f} sec".format(timeout))
 
